@@ -7,8 +7,9 @@ for l in open('/verif/properties.jsonl'):
     p = json.loads(l)
     if p['id'] == pid:
         break
-wt = "/tmp/seed/%s" % pid
-out = "/tmp/seed/%s_out" % pid
+suffix = sys.argv[3] if len(sys.argv) > 3 else ""
+wt = "/tmp/seed/%s%s" % (pid, suffix)
+out = "/tmp/seed/%s_out%s" % (pid, suffix)
 print(f"""You are helping to evaluate a verification effort for the open-source C++ project GM2Calc (a library and CLI that
 computes MSSM and 2HDM contributions to the muon anomalous magnetic moment from SLHA input).
 
